@@ -174,6 +174,10 @@ def _case(rng, maxlen, allow_empty=False):
         w1 = w2 = "u8"
     else:
         w1, w2 = rng.choice(["u8", "u16", "u32", "u64"]), rng.choice(["u8", "u16", "u32", "u64"])
+        if w1 == "u32" and w2 in ("u16", "u32"):      # a 70000 x 300 matrix is the largest we build
+            w2 = rng.choice(["u8", "u64"])
+        if w2 == "u32" and w1 in ("u16", "u32"):
+            w1 = rng.choice(["u8", "u64"])
     lo = 0 if allow_empty else 1
     n = rng.choice([lo, 1, 2, 2, 3, 3, 4, 4, 5, 5, 6, 7] if maxlen <= 7 else list(range(lo, maxlen + 1)))
     m = rng.choice([lo, 1, 2, 2, 3, 3, 4, 4, 5, 5, 6, 7] if maxlen <= 7 else list(range(lo, maxlen + 1)))
@@ -211,11 +215,11 @@ def _case(rng, maxlen, allow_empty=False):
 
 
 def cases(rng, tier):
-    n_cases = 700 if tier == "quick" else 12000
+    n_cases = 700 if tier == "quick" else 6000
     for k in range(n_cases):
         yield _case(rng, 7 if (tier == "quick" or k % 4) else 12, allow_empty=(k % 10 == 0))
     # every pair of length <= L over 2 letters x a grid of matrices / gaps (exhaustive small shapes)
-    L = 2 if tier == "quick" else 4
+    L = 2 if tier == "quick" else 3
     import itertools
     grid_M = [[[1, -1], [-1, 1]], [[2, -3], [0, 1]]] if tier == "quick" else \
         [[[1, -1], [-1, 1]], [[2, -3], [0, 1]], [[-1, -2], [-3, -1]], [[0, 0], [0, 0]], [[3, 1], [-2, 2]]]
@@ -274,7 +278,7 @@ def corpus():
         c["ops"] = _ops(c)
         out.append(c)
     # width / alphabet combinations on one fixed input
-    for w1, w2 in [("u8", "u16"), ("u16", "u8"), ("u32", "u64"), ("u64", "u32"), ("u16", "u32"), ("u64", "u64")]:
+    for w1, w2 in [("u8", "u16"), ("u16", "u8"), ("u32", "u64"), ("u64", "u32"), ("u16", "u16"), ("u8", "u32"), ("u64", "u64")]:
         c = dict(base, mode="g", gap=[-2, -1], a=[0, 1, 2, 1, 0], b=[1, 2, 2, 0], w1=w1, w2=w2, alph2="chr",
                  M=[[2, -1, -3], [-1, 3, 0], [-2, 1, 1]], max=20,
                  rs=[{"tp": 0, "trace": [[0, -1], [1, 0], [2, 1], [3, 2], [-1, 3], [4, -1]]}])
@@ -302,7 +306,8 @@ def _build(c):
     s2 = WIDTH_SIZE[c["w2"]] or k2
     al1 = _alphabet(s1, "int")
     al2 = al1 if (c["alph2"] == "same" and s1 == s2) else _alphabet(s2, "chr")
-    big = np.zeros((s1, s2), dtype=np.int64)
+    assert s1 * s2 <= 70000 * 8, "matrix too large"
+    big = np.zeros((s1, s2), dtype=np.int32 if max(abs(x) for r in c["M"] for x in r) < 2**31 else np.int64)
     big[:k1, :k2] = np.array(c["M"], dtype=np.int64)
     if s1 > k1 or s2 > k2:      # unused entries must not matter
         big[k1:, :] = 7
@@ -470,7 +475,7 @@ def rec_opt(mode, a, b, Mx, gap):
         if i < n and not (affine and last == 1):
             free = mode == "s" and (j == 0 or j == m)
             cands.append((0 if free else (ge if last == 2 else go)) + best(i + 1, j, 2))
-        return max(cands)
+        return max(cands) if cands else -10**15      # dead end (abutting gaps forbidden)
     if mode == "l":
         return max(best(i, j, 0) for i in range(n + 1) for j in range(m + 1))
     return best(0, 0, 0)
@@ -551,9 +556,11 @@ def oracle(case):
     if best != sc:
         v.append((key_ovf if overflow else tag + "/not-optimal",
                   f"reported score {sc}, true optimum {best} (a={a} b={b} M={Mx} gap={gap} mode={mode})"))
-    # de-duplicate keys
+    # de-duplicate keys; in the int32-bound stream every symptom is the one overflow finding
     seen, out = set(), []
     for k, msg in v:
+        if overflow:
+            k = key_ovf
         if k not in seen:
             seen.add(k)
             out.append((k, msg))
